@@ -260,3 +260,23 @@ package twig
 // a pooled context either has no maps (Release) or four different ones (New)
 //@ pool renderContextPool
 //@   invariant x.blocks == nil || x.blocks != x.parentBlocks
+
+// ---------------------------------------------------------------- concurrency discipline (C02)
+// shared mutable state and the lock that protects it
+//@ list guarded Engine.templates Engine.mu
+//@ list guarded attributeCache.m attributeCache.RWMutex
+//@ list guarded attributeCache.currSize attributeCache.RWMutex
+//@ list guarded GlobalStringCache.strings GlobalStringCache.RWMutex
+//@ list guarded Debugger.traces Debugger.mu
+// evictLRUEntries is documented as "caller holds the attributeCache lock"
+//@ func evictLRUEntries props: C02
+//@   flag holds attributeCache
+//@ func evictLRUEntries$1 props: C02
+//@   flag holds attributeCache
+// pooled per-call objects: nothing they own may be used after they are handed back
+//@ list releasers ReleaseTokenizer (*RenderContext).Release (*StringBuffer).Release (*Buffer).Release ReleaseTokenSlice
+// objects reachable by several goroutines once the engine is configured, and the calls that may
+// run concurrently on them
+//@ list shared_types Engine Environment Template FileSystemLoader ArrayLoader ChainLoader CompiledLoader
+//@ list concurrent_entries (*Engine).Render (*Engine).RenderTo (*Engine).Load (*Engine).ParseTemplate (*Engine).RegisterString
+//@ list guarded FileSystemLoader.templatePaths FileSystemLoader.pathsMu
